@@ -566,10 +566,12 @@ fn e_frontend(op: u32, variant: usize) {
             fe::SET_LOG_BASE => {
                 let rep = script_reply(op, 16, true);
                 let base: u64 = kani::any();
-                let with_region: bool = kani::any();
+                // variant 0: symbolic choice; 1: plain u64 variant only; 2: LOG_SHMFD region variant only (concrete
+                // choices keep a changed tree decidable when the two paths are merged behind a common tail)
+                let with_region: bool = if variant == 1 { false } else if variant == 2 { true } else { kani::any() };
                 let region = VhostUserDirtyLogRegion { mmap_size: kani::any(), mmap_offset: kani::any(), mmap_handle: LENT_FD };
                 let r = f.set_log_base(base, if with_region { Some(region) } else { None });
-                wit = r.is_ok() && with_region && gate(pf::LOG_SHMFD);
+                wit = r.is_ok() && (variant == 1 || (with_region && gate(pf::LOG_SHMFD)));
                 if with_region && gate(pf::LOG_SHMFD) {
                     tx_is_header(op, st.need_reply, 16);
                     assert!(g::tx64(12) == region.mmap_size && g::tx64(20) == region.mmap_offset, "C01: log body");
@@ -862,6 +864,10 @@ e_fe!(e_fe_set_mem_table_1region, 5, 1);
 e_fe!(e_fe_set_mem_table_empty, 5, 0);
 // @harness props=C01,C02,C03,C06,C07,C09,C10 tier=quick reach=off timeout=500 bound="Frontend::set_log_base: all argument values, five 64-bit negotiation/limit words, NEED_REPLY on/off, peer reply header of one concrete class (conformant unless named in the harness), 40 symbolic body bytes, 0..=2 descriptors; one call" stubs="vmm-sys-util raw_recvmsg/raw_sendmsg (ghost stream socket), libc::close + OwnedFd::drop (ghost descriptor table), handle_alloc_error (assume false)"
 e_fe!(e_fe_set_log_base, 6, 0);
+// @harness props=C01,C02,C03,C06,C07,C09,C10 tier=quick reach=off timeout=500 bound="Frontend::set_log_base_plain: all argument values, five 64-bit negotiation/limit words, NEED_REPLY on/off, peer reply header of one concrete class (conformant unless named in the harness), 40 symbolic body bytes, 0..=2 descriptors; one call" stubs="vmm-sys-util raw_recvmsg/raw_sendmsg (ghost stream socket), libc::close + OwnedFd::drop (ghost descriptor table), handle_alloc_error (assume false)"
+e_fe!(e_fe_set_log_base_plain, 6, 1);
+// @harness props=C01,C02,C03,C06,C07,C09,C10 tier=quick reach=off timeout=500 bound="Frontend::set_log_base_region: all argument values, five 64-bit negotiation/limit words, NEED_REPLY on/off, peer reply header of one concrete class (conformant unless named in the harness), 40 symbolic body bytes, 0..=2 descriptors; one call" stubs="vmm-sys-util raw_recvmsg/raw_sendmsg (ghost stream socket), libc::close + OwnedFd::drop (ghost descriptor table), handle_alloc_error (assume false)"
+e_fe!(e_fe_set_log_base_region, 6, 2);
 // @harness props=C01,C02,C03,C06,C09,C10 tier=thorough reach=off timeout=500 bound="Frontend::set_log_fd: all argument values, five 64-bit negotiation/limit words, NEED_REPLY on/off, peer reply header of one concrete class (conformant unless named in the harness), 40 symbolic body bytes, 0..=2 descriptors; one call" stubs="vmm-sys-util raw_recvmsg/raw_sendmsg (ghost stream socket), libc::close + OwnedFd::drop (ghost descriptor table), handle_alloc_error (assume false)"
 e_fe!(e_fe_set_log_fd, 7, 0);
 // @harness props=C01,C02,C03,C06,C10 tier=thorough reach=off timeout=500 bound="Frontend::set_vring_num: all argument values, five 64-bit negotiation/limit words, NEED_REPLY on/off, peer reply header of one concrete class (conformant unless named in the harness), 40 symbolic body bytes, 0..=2 descriptors; one call" stubs="vmm-sys-util raw_recvmsg/raw_sendmsg (ghost stream socket), libc::close + OwnedFd::drop (ghost descriptor table), handle_alloc_error (assume false)"
